@@ -1,5 +1,6 @@
 use crate::common::*;
 
+pub mod c01;
 pub mod c02;
 pub mod c07;
 pub mod c09;
@@ -13,12 +14,44 @@ pub mod c15;
 pub mod c16;
 pub mod c17;
 pub mod c20;
+pub mod hist;
 pub mod hung;
+pub mod trk;
 pub mod c19;
 
 pub fn dispatch(id: &str, tier: Tier, replay: Option<&str>) -> i32 {
     let _ = replay;
+    if id == "BENCH" {
+        use crate::sched::in_shuttle;
+        use similari::prelude::*;
+        for variant in [0, 2] {
+            let t0 = std::time::Instant::now();
+            in_shuttle(move || {
+                for _ in 0..200 {
+                    if variant == 2 {
+                        let cfg = trk::TrkCfg::new(trk::Kind::Sort);
+                        let mut t = trk::AnyTrk::new(&cfg);
+                        for _k in 0..3 {
+                            let v = t.predict(0, &[trk::p(), trk::p1(), trk::s()]);
+                            assert_eq!(v.len(), 3);
+                            if variant == 2 { let _ = t.all_stored(false, 1); }
+                        }
+                        continue;
+                    }
+                    let mut t = Sort::new(1, 1, 1, PositionalMetricType::IoU(0.3), 0.05, None, 0.05, 0.00625);
+                    for k in 0..3 {
+                        let v = t.predict(&[(Universal2DBox::ltwh(0.0, 0.0, 10.0, 20.0), None), (Universal2DBox::ltwh(1.0 + k as f32, 1.0, 10.0, 20.0), None), (Universal2DBox::ltwh(3.0, 6.0, 4.0, 8.0), None)]);
+                        assert_eq!(v.len(), 3);
+                    }
+                    
+                }
+            }).unwrap();
+            println!("variant {variant}: 600 calls in {:?} -> {:?}/call", t0.elapsed(), t0.elapsed() / 600);
+        }
+        return 0;
+    }
     let rep = match id {
+        "C01" => c01::run(tier),
         "C02" => {
             let rep = Report::new("C02", tier);
             rep.set_rule("(a) every weight matrix for <= 3 candidates x <= 3 tracks over a grid straddling the threshold (quick: 4 values for 3x3, 7 below; thorough: 7 values), thresholds 0.3 and 1.0, declared sizes exact and larger, every arrival order for <= 2x2 (three orders above), plus permutation-matrix and greedy-trap families up to 8x8: SortVoting::winners judged against an exact bitmask-DP optimum in the implementation's micro-units.");
